@@ -872,10 +872,10 @@ theorem dead_target_not_accepted_new (ops : List Op) (hlen : ops.length + 1 < 2 
   obtain ⟨hfew, hent⟩ := reach_fits run cap rel ops hlen
   intro hok
   obtain ⟨r, hr, h1, h2⟩ := hd
-  have post := opNewEntity_rel_spec run p h.tinv h.unlocked h.noObs
+  have post := opNewEntity_rel_valid run p h.tinv h.unlocked h.noObs
     (fun c hc => by rw [← h.zlen]; exact hreg c hc) hwf.1 (fun r hr => (hwf.2.1 r hr).1)
     (fun r hr => by rw [← h.rget]; exact (hwf.2.1 r hr).2) (by omega) (by omega) hok
-  rcases post.valid r hr with h3 | h3
+  rcases post r hr with h3 | h3
   · rw [h1] at h3; cases h3
   · rw [h2] at h3; cases h3
 
@@ -890,13 +890,13 @@ theorem dead_target_not_accepted_add (ops : List Op) (hlen : ops.length + 1 < 2 
     opAdd run p x ids vals rels (reach run cap rel ops).w ≠ .ok () w' := by
   obtain ⟨fl, h⟩ := reach_hinv run cap rel ops (by omega)
   obtain ⟨hfew, hent⟩ := reach_fits run cap rel ops hlen
-  obtain ⟨_, ha, h2', hnf, _, _⟩ := h.live_facts hm
+  obtain ⟨_, ha, h2', hnf, _, hsl⟩ := h.live_facts hm
   intro hok
   obtain ⟨r, hr, h1, h2⟩ := hd
-  have post := opAdd_rel_spec run p h.tinv h.unlocked h.noObs h2' hnf ha
+  have post := opAdd_rel_valid run p h.tinv h.unlocked h.noObs h2' hnf ha (Pool.lt_of_slot hsl)
     (fun c hc => by rw [← h.zlen]; exact hreg c hc) hwf.1 (fun r hr => (hwf.2.1 r hr).1)
     (fun r hr => by rw [← h.rget]; exact (hwf.2.1 r hr).2) (by omega) (by omega) hok
-  rcases post.valid r hr with h3 | h3
+  rcases post r hr with h3 | h3
   · rw [h1] at h3; cases h3
   · rw [h2] at h3; cases h3
 
@@ -910,16 +910,16 @@ theorem dead_target_not_accepted_setrel (ops : List Op) (hlen : ops.length + 1 <
     opSetRelations run p x mapperIds rels (reach run cap rel ops).w ≠ .ok () w' := by
   obtain ⟨fl, h⟩ := reach_hinv run cap rel ops (by omega)
   obtain ⟨hfew, hent⟩ := reach_fits run cap rel ops hlen
-  obtain ⟨_, ha, h2', hnf, _, _⟩ := h.live_facts hm
+  obtain ⟨_, ha, h2', hnf, _, hsl⟩ := h.live_facts hm
   intro hok
   obtain ⟨r, hr, h1, h2⟩ := hd
   have hemp : rels.isEmpty = false := by
     cases rels with
     | nil => exact absurd rfl hne
     | cons _ _ => rfl
-  have post := opSetRelations_spec run p h.tinv h.unlocked h.noObs h2' hnf ha hemp hnd
-    (fun r hr => (h.target_isSome_iff hm r.comp).mpr (hhas r hr)) (by omega) (by omega) hok
-  rcases post.valid r hr with h3 | h3
+  have post := opSetRelations_valid run p h.tinv h.unlocked h.noObs h2' hnf ha (Pool.lt_of_slot hsl)
+    hemp hnd (fun r hr => (h.target_isSome_iff hm r.comp).mpr (hhas r hr)) (by omega) (by omega) hok
+  rcases post r hr with h3 | h3
   · rw [h1] at h3; cases h3
   · rw [h2] at h3; cases h3
 
@@ -973,20 +973,21 @@ theorem any_access_path (ops : List Op) (op : Op) (q : Path) (hlen : ops.length 
       obtain ⟨⟨⟨hi, hreg⟩, hwf⟩, hx⟩ := hg'
       obtain ⟨en, hf, ⟨hne, hnd, hall⟩, _, hv⟩ := hp
       have hm := find_some_mem hf
-      obtain ⟨_, ha, h2, hnf, _, _⟩ := H.live_facts hm
+      obtain ⟨_, ha, h2, hnf, _, hsl0⟩ := H.live_facts hm
+      have hsl := Pool.lt_of_slot hsl0
       have ok := H.ok e en hm
       refine ⟨?_, ?_⟩
       · simp only [Op.withPath, guard, Bool.and_eq_true, List.all_eq_true, decide_eq_true_eq]
         exact ⟨⟨⟨hi, hreg⟩, hwf⟩, relsExpr_iff.mpr ⟨(relsExpr_iff.mp hx).1, fun _ => hv⟩⟩
       · simp only [Op.withPath, exec]
-        rw [opAdd_rel_path_indep run q p H.tinv H.unlocked H.noObs h2 hnf ha hne hnd
+        rw [opAdd_rel_path_indep run q p H.tinv H.unlocked H.noObs h2 hnf ha hsl hne hnd
           (fun c hc => by rw [← H.zlen]; exact hreg c hc)
           (fun c hc => by
             cases hgc : ((reach run cap rel ops).w.maskOf e).get c with
             | false => rfl
             | true =>
               exact absurd ((H.comps_iff hm c).mp
-                ((H.tinv.mask_iff_comps h2 hnf ha ok.comps c).mp hgc)) (hall c hc).2)
+                ((H.tinv.mask_iff_comps h2 hnf ha hsl ok.comps c).mp hgc)) (hall c hc).2)
           hwf.1 (fun r hr => (hwf.2.1 r hr).1)
           (fun r hr => by rw [← H.rget]; exact (hwf.2.1 r hr).2)
           (fun c hc hr => hwf.2.2 c hc (by rw [H.rget]; exact hr)) (H.targets_alive hv)]
